@@ -1,6 +1,7 @@
 package checks
 
 import (
+	"strings"
 	"grulesim/sim/core"
 	"grulesim/sim/dsim"
 	"grulesim/sim/gen"
@@ -23,6 +24,12 @@ func c12Scenario(seed uint64) (*core.Scenario, *dsim.Extra) {
 	sc := gen.ScenarioFor("C12", seed, p)
 	sc.Sim = "D"
 	sc.Schedule = nil
+	if h := core.Mix(seed, 0xb16); h%16 == 0 && len(sc.Program.Rules) > 0 {
+		// one field of the stream longer than 64 KiB (the writer has no limit, so the reader must not have one)
+		d := strings.Repeat("long description ", 4200)
+		sc.Program.Rules[int(h>>8)%len(sc.Program.Rules)].Desc = &d
+		sc.GRL = grl.PrintProgram(sc.Program)
+	}
 	r := core.NewRand(core.Mix(seed, 0xd15c))
 	ex := &dsim.Extra{OrderSeed: r.Uint64() | 1}
 	if r.Chance(1, 4) {
